@@ -133,11 +133,41 @@ let scen fields =
            Hashtbl.replace bundles b { prev; recvr = s_int recvr; dest = s_int dest; noblk; okset = []; owed = []; dead = false;
                                        st = Some (sl_fresh (if prev = 0 then None else Some (ni prev))) };
            tag (if prev = 0 then "prev-none" else if prev = 9 then "prev-elsewhere" else "prev-peer");
-           dispatch b (sends_of b) conn
+           if s_int dest = 7 then begin
+             tag "local-destination";
+             if sends_of b <> [] then fail (Mismatch (Printf.sprintf "op %d: bundle %d for an endpoint of this node is transmitted" !opno b))
+           end else dispatch b (sends_of b) conn
+         | "rerecv", [b; prev; recvr; dest; blk; held] ->
+           (* the same bundle handed in again with another previous node *)
+           let b = s_int b and prev = s_int prev in
+           if s_bool held then begin
+             (* still stored: Core.receive drops the duplicate, the algorithm is not told *)
+             tag "rerecv-while-held";
+             if sends_of b <> [] then fail (Mismatch (Printf.sprintf "op %d: duplicate of the held bundle %d triggers transmissions" !opno b))
+           end else begin
+             let old = Hashtbl.find bundles b in
+             if old.st <> None && old.st <> Some sl_gone then
+               fail (Mismatch (Printf.sprintf "op %d: bundle %d is received as new, the model still holds it" !opno b));
+             let noblk = not (s_bool blk) in
+             let st = match old.st with
+               | Some s -> (match sl_step s (SlNew (if prev = 0 then None else Some (ni prev))) with Some (s', _) -> Some s' | None -> None)
+               | None -> None in
+             Hashtbl.replace bundles b { prev; recvr = s_int recvr; dest = s_int dest; noblk; okset = []; owed = []; dead = false; st };
+             tag "rerecv-after-leaving";
+             tag (if prev = 0 then "again-prev-none" else if prev = 9 then "again-prev-elsewhere" else "again-prev-peer");
+             if s_int dest = 7 then begin
+               if sends_of b <> [] then fail (Mismatch (Printf.sprintf "op %d: bundle %d for an endpoint of this node is transmitted" !opno b))
+             end else dispatch b (sends_of b) conn
+           end
+         | ("expire" | "gc"), _ ->
+           if sends <> [] then fail (Mismatch (Printf.sprintf "op %d (%s): unexpected sends" !opno kind))
          | "submit", [b; dest] ->
            let b = s_int b in
            Hashtbl.replace bundles b { prev = 0; recvr = 0; dest = s_int dest; noblk = false; okset = []; owed = []; dead = false; st = Some (sl_fresh None) };
-           dispatch b (sends_of b) conn
+           if s_int dest = 7 then begin
+             tag "local-destination";
+             if sends_of b <> [] then fail (Mismatch (Printf.sprintf "op %d: bundle %d for an endpoint of this node is transmitted" !opno b))
+           end else dispatch b (sends_of b) conn
          | ("up" | "up2" | "tick"), _ ->
            (* checkPendingBundles: every pending bundle is dispatched *)
            List.iter (fun h -> if h.pending && Hashtbl.mem bundles h.hb then dispatch h.hb (sends_of h.hb) conn) !prev_held;
